@@ -151,18 +151,290 @@ def box_updates(fn):
     return out
 
 
+BOX_HELPERS = {}      # qualified name -> function: returns the child box for three bits given as parameters, in axis order
+
+
+def find_box_helpers(chk, fns):
+    """Helpers `Box child_box(ix, iy, iz)`: halve the sides, offset anchor component a by parameter a times the halved side."""
+    BOX_HELPERS.clear()
+    n = 0
+    for name, lst in fns.items():
+        for fn in lst:
+            ints = [p for p in fn["params"] if "id" in p and any(t in (p.get("t") or "") for t in ("unsigned", "int", "char", "long", "bool"))
+                    and "Coordinate" not in (p.get("t") or "")]
+            if len(ints) != 3 or len(fn["params"]) != 3 or "Box" not in (fn.get("ret") or ""):
+                continue
+            boxes = box_updates(fn)
+            if len(boxes) != 1:
+                continue
+            rec = list(boxes.values())[0]
+            pidx = {p["id"]: i for i, p in enumerate(fn["params"])}
+            detail = []
+            if rec["half"] is None or rec["half"][0] != 0.5:
+                detail.append("the sides are not halved")
+            if rec["order"][:1] != ["half"]:
+                detail.append("the anchor is offset before the sides are halved")
+            for a in range(3):
+                if a not in rec["axes"]:
+                    detail.append("anchor component %s is not offset" % AX[a])
+                    continue
+                lid, lname, side, st = rec["axes"][a]
+                if side != a:
+                    detail.append("anchor %s is offset by the side along %s" % (AX[a], AX[side]))
+                if pidx.get(lid) != a:
+                    detail.append("anchor %s is offset with parameter `%s` (parameter %s), expected parameter %d" %
+                                  (AX[a], lname, pidx.get(lid), a))
+            n += 1
+            chk.require(not detail, "N7", "%s: builds the child box (anchor + i_a side_a / 2, side / 2) from its three bit parameters "
+                        "in axis order" % fn["full"].split("(")[0], where(fn), "; ".join(detail), function=fn["full"],
+                        construct="child box helper")
+            BOX_HELPERS[fn["full"].split("(")[0]] = fn
+            chk.analysed(function=fn["full"])
+    return n
+
+
+def position_site(chk, fn):
+    """A site that picks / creates the child containing a position: evaluated statement by statement (three-axis loops
+    unrolled, reference aliases of the box corners resolved, bits kept as symbols).  Returns the number of obligations, or
+    None when fn does not compute child bits from a position."""
+    from . import c16_cart as CC
+    pos_params = [p for p in fn["params"] if is_position(p.get("t"))]
+    if not pos_params:
+        return None
+    pid = pos_params[0]["id"]
+    if not any(axis_of(x)[0] is not None and C.strip_casts(axis_of(x)[0]).get("id") == pid for x in C.walk_stmt(fn["body"])):
+        return None
+    CC.load_aliases(fn)
+    label = "%s (line %s)" % (fn["full"].split("(")[0], fn.get("line"))
+    bits = {a: sp.Symbol("b_%s" % AX[a], integer=True, nonnegative=True) for a in range(3)}
+    env = {}            # ("l", id) / ("l", id, k) -> sympy value
+    bit_checked = {}
+    n = [0]
+    halved = set()      # names of boxes whose sides were halved
+    box_off = {}        # box name -> {axis: (expr, stmt)}
+    box_order_bad = set()
+    t = sp.Symbol("t", real=True)
+
+    def box_part(e):
+        """('anchor'|'sides', box name, axis) of <box>.get_anchor()[a] / alias.x() ..."""
+        b, a = axis_of(e)
+        if b is None:
+            return None
+        b0 = C.strip_casts(b)
+        if b0.get("k") == "Ref" and b0.get("id") in CC._ALIASES:
+            b0 = C.strip_casts(CC._ALIASES[b0["id"]])
+        if b0.get("k") == "Call" and b0.get("n") in ("get_anchor", "get_sides") and b0.get("obj") is not None:
+            return ("anchor" if b0["n"] == "get_anchor" else "sides", CC.base_name(b0["obj"]), a)
+        return None
+
+    def atoms(key, e):
+        bp = box_part(e)
+        if bp is not None:
+            return sp.Symbol("%s_%s_%s" % (bp[0][0].upper(), bp[1], AX[bp[2]]), positive=(bp[0] == "sides"), real=True)
+        b, a = axis_of(e)
+        if b is not None:
+            b0 = C.strip_casts(b)
+            if b0.get("k") == "Ref" and b0.get("id") == pid:
+                return sp.Symbol("p_%s" % AX[a], real=True)
+            if b0.get("k") == "Ref" and ("l", b0.get("id"), a) in env:
+                return env[("l", b0["id"], a)]
+        e0 = C.strip_casts(e)
+        if e0.get("k") == "Ref" and ("l", e0.get("id")) in env:
+            return env[("l", e0["id"])]
+        return None
+    conv = Converter(atoms=atoms)
+
+    def axis_symbols(v):
+        axes = set()
+        for s_ in getattr(v, "free_symbols", set()):
+            nm = str(s_)
+            if nm.startswith("p_") or nm.startswith("A_") or nm.startswith("S_"):
+                axes.add(AX.index(nm[-1]))
+        return axes
+
+    def classify(v, node, what):
+        """v is an expression of position / corner components: must be 2 (p_a - A_a) / S_a, or the test p_a > A_a + S_a / 2;
+        returns the bit symbol of its axis"""
+        axes = axis_symbols(v)
+        if len(axes) != 1:
+            return None
+        a = axes.pop()
+        P = sp.Symbol("p_%s" % AX[a], real=True)
+        As = [s_ for s_ in v.free_symbols if str(s_).startswith("A_")]
+        Ss = [s_ for s_ in v.free_symbols if str(s_).startswith("S_")]
+        ok = len(As) == 1 and len(Ss) == 1 and str(As[0])[2:] == str(Ss[0])[2:]
+        if ok:
+            w = v.subs(P, As[0] + t * Ss[0])
+            if isinstance(w, sp.core.relational.Relational):
+                ok = sp.simplify((w.lhs - w.rhs) / Ss[0] - (t - sp.Rational(1, 2))) == 0 and w.rel_op in (">", ">=")
+            else:
+                ok = sp.simplify(w - 2 * t) == 0
+        n[0] += 1
+        chk.require(ok, "N7", "%s: the %s bit of the child is 0 in the lower and 1 in the upper half of the cell along %s" %
+                    (label, AX[a], AX[a]), where(node, fn), "`%s` is %s, not floor(2 (p - anchor) / side) (or p > anchor + side / 2) "
+                    "of axis %s" % (what, v, AX[a]), function=fn["full"], construct="octant bit %s" % AX[a])
+        return bits[a]
+
+    def value(e, node, what):
+        v = conv.conv(e, Env())
+        if axis_symbols(v) and not (getattr(v, "free_symbols", set()) & set(bits.values())):
+            b = classify(v, node, what)
+            if b is not None:
+                return b
+            return sp.Symbol("unclassified_%s" % (node.get("l") if isinstance(node, dict) else "x"), integer=True)
+        return v
+
+    def assign(lhs, op, rhs, node):
+        l0 = C.strip_casts(lhs)
+        bp = box_part(l0)
+        if bp is not None and bp[0] == "anchor" and op == "+=":
+            v = conv.conv(rhs, Env())
+            box_off.setdefault(bp[1], {})[bp[2]] = (v, node)
+            if bp[1] not in halved:
+                box_order_bad.add(bp[1])
+            return
+        key = None
+        if l0.get("k") == "Ref" and "id" in l0:
+            key = ("l", l0["id"])
+        else:
+            b, a = axis_of(l0)
+            if b is not None and C.strip_casts(b).get("k") == "Ref" and "id" in C.strip_casts(b):
+                key = ("l", C.strip_casts(b)["id"], a)
+        if key is None:
+            return
+        if "double" in (l0.get("t") or "") or "Coordinate" in (l0.get("t") or "") or "Box" in (l0.get("t") or ""):
+            return
+        try:
+            v = value(rhs, node, C.pretty(lhs))
+        except AnalysisBroken:
+            return
+        old = env.get(key, sp.Integer(0))
+        env[key] = {"=": v, "+=": old + v, "|=": old + v, "-=": old - v}.get(op, v)
+
+    def run(stmts):
+        for st in CC.flat(stmts):
+            k = st.get("k")
+            if k == "Decl":
+                for d in st["d"]:
+                    if d.get("init") is None or "Coordinate" in (d.get("t") or "") or "Box" in (d.get("t") or "") or \
+                            "*" in (d.get("t") or ""):
+                        continue
+                    try:
+                        env[("l", d["id"])] = value(d["init"], st, d["n"])
+                    except AnalysisBroken:
+                        pass
+            elif k == "Bin" and st.get("op") in ("=", "+=", "|=", "-=", "*="):
+                l0 = C.strip_casts(st["a"])
+                if st["op"] == "*=" and l0.get("k") == "Call" and l0.get("n") == "get_sides":
+                    f = C.strip_casts(st["b"])
+                    if f.get("k") == "Float" and float(f["v"]) == 0.5:
+                        halved.add(CC.base_name(l0["obj"]))
+                    continue
+                assign(st["a"], st["op"], st["b"], st)
+            elif k == "Call" and st.get("op") in ("=", "+=", "|=", "-=", "*=") and st.get("obj") is not None and st["a"]:
+                l0 = C.strip_casts(st["obj"])
+                if st["op"] == "*=" and l0.get("k") == "Call" and l0.get("n") == "get_sides":
+                    f = C.strip_casts(st["a"][0])
+                    if f.get("k") == "Float" and float(f["v"]) == 0.5:
+                        halved.add(CC.base_name(l0["obj"]))
+                    continue
+                if st["op"] == "*=" and l0.get("k") == "Ref" and l0.get("id") in CC._ALIASES:
+                    al = C.strip_casts(CC._ALIASES[l0["id"]])
+                    f = C.strip_casts(st["a"][0])
+                    if al.get("k") == "Call" and al.get("n") == "get_sides" and f.get("k") == "Float" and float(f["v"]) == 0.5:
+                        halved.add(CC.base_name(al["obj"]))
+                    continue
+                assign(st["obj"], st["op"], st["a"][0], st)
+            elif k == "If":
+                # `if (p_a > mid_a) child |= w;`: the bit of axis a times w
+                c = None
+                try:
+                    c = conv.conv(st["c"], Env())
+                except AnalysisBroken:
+                    pass
+                if c is not None and axis_symbols(c) and not (getattr(c, "free_symbols", set()) & set(bits.values())):
+                    b = classify(c, st, C.pretty(st["c"])[:50])
+                    inner = CC.flat([st["th"]])
+                    if b is not None and st.get("el") is None and len(inner) == 1 and inner[0].get("k") == "Bin" and \
+                            inner[0]["op"] in ("|=", "+=") and C.const_int(inner[0]["b"]) is not None:
+                        l0 = C.strip_casts(inner[0]["a"])
+                        if l0.get("k") == "Ref" and "id" in l0:
+                            key = ("l", l0["id"])
+                            env[key] = env.get(key, sp.Integer(0)) + C.const_int(inner[0]["b"]) * b
+                            continue
+                run([st["th"]])
+                if st.get("el") is not None:
+                    run([st["el"]])
+            elif k in ("For", "While", "Do"):
+                run([st.get("body")])
+    run(fn["body"]["s"])
+    # child indices
+    want = 4 * bits[0] + 2 * bits[1] + bits[2]
+    seen_idx = 0
+    for x, idx in child_indices(fn):
+        try:
+            v = sp.expand(conv.conv(idx, Env()))
+        except AnalysisBroken:
+            continue
+        if not (getattr(v, "free_symbols", set()) & set(bits.values())):
+            continue
+        seen_idx += 1
+        n[0] += 1
+        chk.require(sp.expand(v - want) == 0, "N7", "%s: `%s` is child 4 i_x + 2 i_y + i_z" % (label, C.pretty(x)[:60]), where(x, fn),
+                    "the index is %s" % v, function=fn["full"], construct="child index")
+    if not seen_idx:
+        return None
+    for x in C.walk_stmt(fn["body"]):
+        if x.get("k") == "Call" and x.get("fn") in BOX_HELPERS and len(x["a"]) == 3:
+            try:
+                vals = [sp.expand(conv.conv(a_, Env())) for a_ in x["a"]]
+            except AnalysisBroken:
+                continue
+            n[0] += 1
+            chk.require(all(sp.expand(vals[a] - bits[a]) == 0 for a in range(3)), "N7", "%s: the child box helper is given the bits "
+                        "of x, y, z in that order" % label, where(x, fn), "arguments: %s" % vals, function=fn["full"],
+                        construct="child box arguments")
+    # child boxes
+    for bname, offs in sorted(box_off.items()):
+        detail = []
+        if bname not in halved:
+            detail.append("the sides of %s are not halved" % bname)
+        if bname in box_order_bad:
+            detail.append("the anchor of %s is offset before its sides are halved (offset = a full side)" % bname)
+        for a in range(3):
+            if a not in offs:
+                detail.append("anchor component %s of %s is not offset" % (AX[a], bname))
+                continue
+            v, node = offs[a]
+            S = sp.Symbol("S_%s_%s" % (bname, AX[a]), positive=True, real=True)
+            if sp.expand(v - bits[a] * S) != 0:
+                detail.append("anchor %s is offset by %s, expected (bit of %s) x (side along %s)" % (AX[a], v, AX[a], AX[a]))
+        n[0] += 1
+        chk.require(not detail, "N7", "%s: the child box `%s` is (anchor + i_a side_a / 2, side / 2) on every axis" % (label, bname),
+                    where(fn), "; ".join(detail), function=fn["full"], construct="child box %s" % bname)
+    return n[0]
+
+
 def rule_octants(chk, lib):
     fns = {}
     for d in methods(lib):
         fns.setdefault(d["name"], []).append(d)
     if not fns:
         raise AnalysisBroken("AMRGridCell has no methods in the library")
-    n = 0
-    sites = 0
+    n = find_box_helpers(chk, fns)
+    sites = len(BOX_HELPERS)
     for name in sorted(fns):
         for fn in fns[name]:
+            if fn["full"].split("(")[0] in BOX_HELPERS:
+                continue
             idxs = child_indices(fn)
             if not idxs:
+                continue
+            k_pos = position_site(chk, fn)
+            if k_pos is not None:
+                n += k_pos
+                sites += 1
+                chk.analysed(function=fn["full"])
                 continue
             defs = local_defs(fn)
             boxes = box_updates(fn)
@@ -187,6 +459,15 @@ def rule_octants(chk, lib):
                     for a, (lid, lname, side, st) in rec["axes"].items():
                         axis_local[a] = lid
                 kind = "index"
+            if kind is None:
+                # index-driven through a box helper: the axis of a local is the position at which it is handed to the helper
+                for x in C.walk_stmt(fn["body"]):
+                    if x.get("k") == "Call" and x.get("fn") in BOX_HELPERS and len(x["a"]) == 3:
+                        for a, arg in enumerate(x["a"]):
+                            a0 = C.strip_casts(arg)
+                            if a0.get("k") == "Ref" and "id" in a0:
+                                axis_local[a] = a0["id"]
+                        kind = "index"
             if set(axis_local) != {0, 1, 2}:
                 continue        # a site that only passes a key digit on (operator[], refine's descent, get_next_key)
             sites += 1
@@ -280,7 +561,7 @@ def rule_octants(chk, lib):
                             (label, rec["name"]), where(rec["half"][1] if rec["half"] else fn, fn), "; ".join(detail),
                             function=fn["full"], construct="child box %s" % rec["name"])
     chk.note("N7: %d sites with octant arithmetic in %s" % (sites, CLS))
-    if sites < 5:
+    if sites < 4:
         raise AnalysisBroken("N7: only %d octant sites found in %s (7 confirmed by hand)" % (sites, CLS))
     return n
 
@@ -316,18 +597,40 @@ def rule_keys(chk, lib):
             e0 = C.strip_casts(e)
             return e0.get("k") == "Ref" and e0.get("id") in defs and defs[e0["id"]][1] is not None and \
                 C.strip_casts(defs[e0["id"]][1]).get("k") == "Call"
+        # a key digit is what indexes the child array: `cell = key & M; _children[cell]` (or `(key >> 3 L) & M`)
+        index_exprs = [C.strip_casts(idx) for _, idx in child_indices(fn)]
+        index_ids = {i_.get("id") for i_ in index_exprs if i_.get("k") == "Ref"}
+        key_ids = set()
+        seen = set()
+        cand_masks = []
+        for x in C.walk_stmt(fn["body"]):
+            if id(x) in seen:
+                continue
+            seen.add(id(x))
+            if x.get("k") == "Bin" and x["op"] == "&" and C.const_int(x["b"]) is not None:
+                used_as_index = any(x is i_ for i_ in index_exprs)
+                for lid, (d_, init_) in defs.items():
+                    if init_ is not None and C.strip_casts(init_) is x and lid in index_ids:
+                        used_as_index = True
+                if used_as_index:
+                    cand_masks.append(x)
+                    for r in C.walk(x["a"]):
+                        if r.get("k") == "Ref" and "id" in r and r.get("id") in pids:
+                            key_ids.add(r["id"])
+        for x in cand_masks:
+            masks.append((fn, x, C.const_int(x["b"])))
         seen = set()
         for x in C.walk_stmt(fn["body"]):
             if id(x) in seen:
                 continue
             seen.add(id(x))
-            if x.get("k") == "Bin" and x["op"] == "&" and C.const_int(x["b"]) is not None and mentions_param(x["a"]):
-                masks.append((fn, x, C.const_int(x["b"])))
             if x.get("k") == "Bin" and x["op"] in (">>=", ">>", "<<"):
                 rhs = C.strip_casts(x["b"])
                 c = C.const_int(rhs)
+                lroot = C.strip_casts(x["a"])
                 if c is not None:
-                    if (x["op"] in (">>=", ">>") and mentions_param(x["a"])) or (x["op"] == "<<" and from_call(x["a"])):
+                    if (x["op"] in (">>=", ">>") and lroot.get("k") == "Ref" and lroot.get("id") in key_ids) or \
+                            (x["op"] == "<<" and from_call(x["a"])):
                         shifts.append((fn, x, c))
                 elif rhs.get("k") == "Bin" and rhs["op"] == "*" and mentions_param(rhs):
                     f = C.const_int(rhs["a"]) if C.const_int(rhs["a"]) is not None else C.const_int(rhs["b"])
